@@ -211,7 +211,13 @@ def cons_work(exes, start, n, owner, fam="cons"):
     for i in range(n):
         case = gen(rnd, start + i)
         variant = names[(start + i) % len(names)]
-        out = solverlib.run_probe(exes[variant], [case["text"]])
+        inc = (start + i) % 5 == 4 and case.get("parts")
+        if inc:
+            # the same program given as two scripts, with a solve() in between (the way the executor and interactive front ends use the solver)
+            out = solverlib.run_probe(exes[variant], case["parts"], incremental=True)
+            part.count(fam + ": programs read incrementally")
+        else:
+            out = solverlib.run_probe(exes[variant], [case["text"]])
         fp = common.fingerprint(case["text"])
         st = out.status
         if st == "timeout":
@@ -222,9 +228,9 @@ def cons_work(exes, start, n, owner, fam="cons"):
             continue
         part.count(fam + ": programs (%s)" % variant)
         part.count(fam + ": outcome " + st)
-        if (start + i) % 3 == 0 and st in ("solved", "unsolvable"):
+        if (start + i) % 3 == 0 and st in ("solved", "unsolvable") and not inc:
             cli_leg(part, case, variant, exes[variant], out, owner)
-        if owner == "C02" and (start + i) % 2 == 1:
+        if owner == "C02" and (start + i) % 2 == 1 and not inc:
             equivalence_leg(part, rnd, case, variant, exes[variant], out, fam)
         if st == "solved":
             sol = solverlib.Solution(out.post)
